@@ -46,6 +46,7 @@ type Exec struct {
 	arrSorts      map[string]Sort
 	mapKeySort    map[string]Sort
 	mapPtrValued  map[string]bool
+	mapSliceValued map[string]bool
 	declaredConst map[string]bool
 	declaredFun   map[string]bool
 	lastRef       string
@@ -133,11 +134,18 @@ func newExec(P *Program, S *Specs, prop, mode string) *Exec {
 	for _, c := range [][2]string{{"M_Int", "Int"}, {"M_Bool", "Bool"}, {"M_Str", "Str"}, {"M_Ref", "Int"}, {"M_Iface", "Iface"}, {"M_Slice", "Slice"}, {"M_Real", "Real"}} {
 		ex.arrSorts[c[0]] = Sort("(Array Int " + c[1] + ")")
 	}
+	for _, tn := range S.GoSortTypes { // datatypes named in spec files are declared up front
+		if t := ex.resolveType(tn); t != nil {
+			if _, ok := t.Underlying().(*types.Struct); ok {
+				ex.D.structOf(t)
+			}
+		}
+	}
 	return ex
 }
 
 func newExec0(P *Program, S *Specs, prop, mode string) *Exec {
-	return &Exec{P: P, S: S, D: newDecls(), Prop: prop, Mode: mode, notes: map[string]bool{}, arrSorts: map[string]Sort{}, mapKeySort: map[string]Sort{}, mapPtrValued: map[string]bool{},
+	return &Exec{P: P, S: S, D: newDecls(), Prop: prop, Mode: mode, notes: map[string]bool{}, arrSorts: map[string]Sort{}, mapKeySort: map[string]Sort{}, mapPtrValued: map[string]bool{}, mapSliceValued: map[string]bool{},
 		declaredConst: map[string]bool{}, declaredFun: map[string]bool{}, obNames: map[string]int{}, unknownCalls: map[string]int{}, usedSpecs: map[string]bool{}, closureByTerm: map[string]*closureRec{}}
 }
 
@@ -197,6 +205,9 @@ func (ex *Exec) freshRef(hint string) string {
 func (ex *Exec) scriptFor(idx int, negGoal string) string {
 	var b strings.Builder
 	b.WriteString(prelude)
+	for _, ph := range ex.S.Placeholders {
+		b.WriteString("(declare-sort " + ph + " 0)\n")
+	}
 	for _, l := range ex.D.lines {
 		b.WriteString(l)
 		b.WriteByte('\n')
@@ -1043,7 +1054,7 @@ func (fr *Frame) indexAddr(x *ssa.IndexAddr) {
 		if ex.sweepSafe {
 			ex.oblige("safe", "index", fmt.Sprintf("(and (>= %s 0) (< %s (slen %s)))", idx, idx, s.T), fr.curReach, "index out of range", x.Pos(), []string{"C19"})
 		}
-		fr.set(x, fmt.Sprintf("(ea (sarr %s) (+ (soff %s) %s))", s.T, s.T, idx))
+		fr.set(x, fmt.Sprintf("(elemaddr %s %s)", s.T, idx))
 	case *types.Pointer: // *array
 		p := fr.val(x.X)
 		at := t.Elem().Underlying().(*types.Array)
